@@ -6,13 +6,14 @@ toolchain go1.23.5
 
 require (
 	github.com/MichaelMure/git-bug v0.0.0
+	github.com/ProtonMail/go-crypto v1.0.0
+	github.com/go-git/go-billy/v5 v5.5.0
 	pgregory.net/rapid v1.3.0
 )
 
 require (
 	dario.cat/mergo v1.0.0 // indirect
 	github.com/99designs/keyring v1.2.2 // indirect
-	github.com/ProtonMail/go-crypto v1.0.0 // indirect
 	github.com/RoaringBitmap/roaring v1.9.4 // indirect
 	github.com/bits-and-blooms/bitset v1.13.0 // indirect
 	github.com/blevesearch/bleve v1.0.14 // indirect
@@ -35,7 +36,6 @@ require (
 	github.com/emirpasic/gods v1.18.1 // indirect
 	github.com/fatih/color v1.17.0 // indirect
 	github.com/go-git/gcfg v1.5.1-0.20230307220236-3a3c6141e376 // indirect
-	github.com/go-git/go-billy/v5 v5.5.0 // indirect
 	github.com/go-git/go-git/v5 v5.12.0 // indirect
 	github.com/godbus/dbus v0.0.0-20190726142602-4481cbc300e2 // indirect
 	github.com/golang/groupcache v0.0.0-20210331224755-41bb18bfe9da // indirect
